@@ -84,6 +84,14 @@ func genC05(thorough bool) func(t *rapid.T) Case {
 			c.Base.Book, c.Base.Log = genFlatSum(t)
 			c.Base.Inv = genInvocation(t, summingShapes, c.Base.Book, c.Base.Log)
 		}
+		if n := len(c.Base.Log); n > 0 && rapid.IntRange(0, 7).Draw(t, "malformed_entry") == 7 {
+			// a log that stops parsing somewhere in the middle: what was printed up to there, the message and
+			// the status are as repeatable as a complete report
+			d := rapid.IntRange(0, n-1).Draw(t, "malformed_day")
+			if k := len(c.Base.Log[d].Items); k > 0 {
+				c.Base.Log[d].Items[rapid.IntRange(0, k-1).Draw(t, "malformed_item")].Qty = "1x"
+			}
+		}
 		if rapid.IntRange(0, 3).Draw(t, "extra_locals") == 3 {
 			c.Base.Inv.Locals = genExtraLocals(t, c.Base.Inv.Shape)
 		}
